@@ -1535,6 +1535,9 @@ def _Path(it, self, args, kw):
     v = args[0]
     if isinstance(v, VLib) and v.kind == "Path":
         return v
+    if isinstance(v, VOpaque):
+        from . import plain
+        v = plain.resolve(it, v)  # a decoded (JSON / CBOR) value: one kind per path
     if not isinstance(v, VStr):
         it.raise_(TypeError, "expected str, bytes or os.PathLike object")
     return VLib("Path", s=v)
@@ -1603,6 +1606,11 @@ def lib_getattr(it, obj: VLib, name: str):
 
 
 def lib_getitem(it, obj, key):
+    if obj.kind == "sys.modules":
+        # whatever an earlier request registered under that name: an EXECUTED module loaded from SOME path (not necessarily this request's script)
+        it.trace.append(("sys.modules-reuse", key))
+        sp = VLib("ModuleSpec", name=key, path=it.fresh_str("path_of_module_loaded_earlier"))
+        return VLib("Module", spec=sp, executed=True)
     if obj.kind == "RelMap":
         from . import relmap
         return relmap.getitem(it, obj, key)
@@ -2396,7 +2404,18 @@ def _json_loads(it, self, args, kw):
             it.raise_(json.JSONDecodeError_ if False else _json_error(), "json")
     if not isinstance(v, VStr):
         it.raise_(TypeError, "the JSON object must be str, bytes or bytearray")
-    raise OutOfSubset("json.loads of a symbolic string")
+    if isinstance(v, VStr):
+        # a symbolic text: JSONDecodeError, or SOME JSON-shaped value that is a function of the text (the same text gives the same value on a path)
+        from . import plain
+        if it.branch(it.fresh_bool("json_decode_error").e):
+            it.raise_(_json_error(), "json")
+        cache = it.__dict__.setdefault("json_load_cache", {})
+        k = z3.simplify(v.e).sexpr()
+        if k not in cache:
+            cache[k] = plain.fresh_json(it, it.fresh_name("json_loads"))
+        it.trace.append(("json.loads", v, cache[k]))
+        return cache[k]
+    raise OutOfSubset("json.loads of a symbolic non-str")
 
 
 def _json_error():
